@@ -185,7 +185,8 @@ def stage_grid(ctx, drv):
                                                               "trace": traceback.format_exc(limit=4)[-500:]})
                         continue
                     for (l, dd) in sub or []:
-                        lines.append(l); exp.append(None)
+                        for l_ in l.split("\n"):
+                            lines.append(l_); exp.append(None)
                         lines.append("w.dump"); exp.append(None)
                         steps.append(dd)
                     exp[-1] = case.real_dump()
